@@ -6,7 +6,11 @@
 // pattern in the thorough tier (a stratified 2^26-point sample + all edges in quick), edge
 // lists and PRNG draws for 40/64-bit, doubles and decimals, length thresholds of the
 // blob/text/short/int-length byte strings, nil versus empty, array lengths 0..32767;
-// (b) random programs of mixed writes replayed as the matching reads.
+// (b) random programs of mixed writes replayed as the matching reads; every slice or string a
+// read hands out is held (the returned value itself, next to a private copy) and re-verified
+// after every later read on the same and on other inputs and after the caller wrote over other
+// returned slices; ToByteArray()/ToBytes* results and the slices given to a writer likewise
+// (own.go).
 package main
 
 import (
@@ -55,6 +59,8 @@ type harness struct {
 	rp *reporter
 	t  tally
 	b  [9]*batch
+
+	own ownTally // result-ownership evidence (own.go)
 
 	allocs []metrics.Sample
 	lastGC uint64
@@ -218,6 +224,23 @@ func main() {
 			c.SetAdd("functions_swept", "DataOutputX.WriteBool")
 			c.SetAdd("functions_swept", "DataInputX.ReadBool")
 		}
+		// result ownership of ToBytesBool: results are held over later calls, then written over
+		// by the caller; neither the other held results nor later results may change.
+		t1, f1, t2, f2 := gio.ToBytesBool(true), gio.ToBytesBool(false), gio.ToBytesBool(true), gio.ToBytesBool(false)
+		okBool := func() bool {
+			t3, f3 := gio.ToBytesBool(true), gio.ToBytesBool(false)
+			return len(t2) == 1 && len(f2) == 1 && len(t3) == 1 && len(f3) == 1 && t2[0] == 1 && f2[0] == 0 && t3[0] == 1 && f3[0] == 0
+		}
+		if !okBool() || len(t1) != 1 || len(f1) != 1 || t1[0] != 1 || f1[0] != 0 {
+			c.Fail("ToBytesBool:result-altered-later", fmt.Sprintf("results of ToBytesBool held over later calls changed: true→%x %x, false→%x %x", t1, t2, f1, f2), nil)
+		} else {
+			t1[0], f1[0] = 0xEE, 0xEE
+			if !okBool() {
+				c.Fail("ToBytesBool:result-altered-later", fmt.Sprintf("after the caller wrote over earlier results of ToBytesBool, other results read true→%x (now %x), false→%x (now %x)", t2, gio.ToBytesBool(true), f2, gio.ToBytesBool(false)), nil)
+			}
+		}
+		h.own.helperHeld += 4
+		h.own.helperScribbles += 2
 		c.Eval(256 + 2)
 		c.DistinctEnum(256 + 2)
 		c.Exhaustive("all 2^8 byte values through WriteByte/ReadByte; both booleans")
@@ -582,6 +605,25 @@ func main() {
 		}
 	})
 
+	// ------------------------------------------------ (b') programs dense in held values ------
+	// The same executor and oracle as (b) on programs made mostly of the reads that hand out
+	// slices (byte strings of every encoding at the lengths 0..10 and around 16/32/64/128/253..256,
+	// the seven typed arrays, texts), so that many values of every size class are held across
+	// many later reads of the same and of other kinds (see own.go).
+	c.Cases("ownership", c.N(8000, 160000), func(i int, r *vlib.Rand) {
+		ops := genOwnProgram(r)
+		res := h.runProgram("ownership", ops)
+		for j := range ops {
+			c.SetAdd("ops_covered", ops[j].wname()+"→"+ops[j].rname())
+		}
+		c.Count("ownership_programs", 1)
+		c.Count("ownership_program_ops", int64(len(ops)))
+		c.DistinctBytes(res.bytes)
+		if i < 64 && len(ops) <= 5 && c.WantSample() {
+			c.Sample(map[string]interface{}{"section": "ownership", "ops": describeAll(ops), "bytes": vlib.Hex(res.bytes)})
+		}
+	})
+
 	// ------------------------------------------------ (c) programs, many streams at once -----
 	// Independent streams in different goroutines must not influence each other (a header
 	// template or scratch buffer shared between streams would only show here). Same oracle as
@@ -603,9 +645,15 @@ func main() {
 				}
 			}
 			hp.runProgram("programs-parallel", ops)
+			// … and one dense in held values (b'), so that values are held while the other
+			// goroutines read.
+			hp.runProgram("programs-parallel", genOwnProgram(r))
 		}
-		c.Count("parallel_programs", 40)
-		c.Eval(39)
+		held := hp.own.held
+		hp.flushOwn()
+		c.Count("parallel_programs", 80)
+		c.Count("parallel_held_values", held)
+		c.Eval(79)
 		c.DistinctEnum(1)
 	})
 
@@ -631,6 +679,7 @@ func main() {
 	for k, n := range h.rp.n {
 		c.Count("mismatches/"+k, int64(n))
 	}
+	h.flushOwn()
 
 	ns := int64(c.NShards)
 	c.Floor("random_programs", int64(c.N(20000, 400000))/10/ns, c.Counter("random_programs"))
@@ -642,5 +691,145 @@ func main() {
 	c.Floor("values_decimal", int64(c.N(2<<20, 128<<20))/10/ns, c.Counter("values_decimal"))
 	c.Floor("threshold_cases", int64(len(lengths)*len(tkinds))/10/ns, c.Counter("threshold_cases"))
 	c.Floor("array_cases", int64(len(alens)*len(akinds))/10/ns, c.Counter("array_cases"))
+	// result ownership: what the monitor held and how often it looked again.
+	nOwn := int64(c.N(8000, 160000))
+	c.Floor("ownership_programs", nOwn/10/ns, c.Counter("ownership_programs"))
+	c.Floor("own_held_values", nOwn*30/ns, c.Counter("own_held_values"))
+	c.Floor("own_held_reverifications", nOwn*1500/ns, c.Counter("own_held_reverifications"))
+	c.Floor("own_scribbles_over_returned_slices", nOwn*10/ns, c.Counter("own_scribbles_over_returned_slices"))
+	c.Floor("own_reads_on_other_inputs_with_values_held", nOwn*1000/ns, c.Counter("own_reads_on_other_inputs_with_values_held"))
+	c.Floor("own_input_buffer_checks", nOwn*80/ns, c.Counter("own_input_buffer_checks"))
+	c.Floor("own_ToByteArray_snapshot_reverifications", nOwn*40/ns, c.Counter("own_ToByteArray_snapshot_reverifications"))
+	c.Floor("own_ToByteArray_held_over_header_reuse", nOwn/ns, c.Counter("own_ToByteArray_held_over_header_reuse"))
+	c.Floor("own_writer_arguments_overwritten_after_the_write", nOwn*4/ns, c.Counter("own_writer_arguments_overwritten_after_the_write"))
+	c.Floor("own_helper_results_held", (1<<23)/ns, c.Counter("own_helper_results_held"))
+	c.Floor("parallel_held_values", int64(c.N(8*16*4, 8*16*40))*200/ns, c.Counter("parallel_held_values"))
+	for _, l := range []string{"0", "1", "7", "8", "9"} {
+		c.Floor("own_held_byte_strings_of_len_"+l, nOwn/2/ns, c.Counter("own_held_byte_strings_of_len_"+l))
+	}
 	c.Finish()
+}
+
+// ownLens: the lengths (bytes or elements) of the values the ownership programs hold; the
+// first eleven are drawn as often as all the others together.
+var ownLens = []int{0, 1, 2, 3, 4, 5, 6, 7, 8, 9, 10, 15, 16, 17, 31, 32, 33, 63, 64, 65, 127, 128, 129, 253, 254, 255, 256, 300}
+
+func drawOwnLen(r *vlib.Rand) int {
+	if r.Bool() {
+		return ownLens[r.Intn(11)]
+	}
+	return ownLens[r.Intn(len(ownLens))]
+}
+
+// genOwnProgram: 2..32 ops, three of four handing out a slice or a string when read.
+func genOwnProgram(r *vlib.Rand) []op {
+	ops := make([]op, r.Range(2, 32))
+	for j := range ops {
+		ops[j] = genOwnOp(r)
+	}
+	return ops
+}
+
+func genOwnOp(r *vlib.Rand) op {
+	if r.Intn(4) == 0 {
+		big := 0
+		return genOp(r, &big)
+	}
+	l := drawOwnLen(r)
+	nilv := l == 0 && r.Bool()
+	o := op{}
+	switch r.Intn(20) {
+	case 0, 1, 2:
+		o.k = kBlob
+	case 3, 4:
+		o.k = kShortBytes
+	case 5, 6, 7:
+		o.k, o.rd = kIntBytes, r.Intn(3)
+		if o.rd == 2 {
+			o.lim = r.Range(1, 1000)
+		}
+	case 8, 9:
+		o.k = kBytes
+	case 10:
+		o.k, o.pre, o.pst = kWriteOff, r.Range(0, 5), r.Range(0, 5)
+		o.b = append(append(r.Bytes(o.pre), r.Bytes(l)...), r.Bytes(o.pst)...)
+		return o
+	case 11:
+		o.k, o.s = kText, r.AsciiN(l)
+		return o
+	case 12:
+		o.k, o.s = kTextShort, r.AsciiN(l)
+		return o
+	case 13:
+		o.k = kShortArr
+		if !nilv {
+			o.i16 = make([]int16, l)
+		}
+		for i := range o.i16 {
+			o.i16[i] = r.I16()
+		}
+		return o
+	case 14:
+		o.k = kIntArr
+		if !nilv {
+			o.i32 = make([]int32, l)
+		}
+		for i := range o.i32 {
+			o.i32[i] = r.I32()
+		}
+		return o
+	case 15:
+		o.k = kLongArr
+		if !nilv {
+			o.i64 = make([]int64, l)
+		}
+		for i := range o.i64 {
+			o.i64[i] = r.I64()
+		}
+		return o
+	case 16:
+		o.k = kFloatArr
+		if !nilv {
+			o.f32 = make([]float32, l)
+		}
+		for i := range o.f32 {
+			o.f32[i] = r.F32()
+		}
+		return o
+	case 17:
+		o.k = kDoubleArr
+		if !nilv {
+			o.f64 = make([]float64, l)
+		}
+		for i := range o.f64 {
+			o.f64[i] = r.F64()
+		}
+		return o
+	case 18:
+		o.k = kTextArr
+		if !nilv {
+			o.ss = make([]string, l%48)
+		}
+		for i := range o.ss {
+			o.ss[i] = r.Str(12)
+		}
+		return o
+	default:
+		if r.Bool() {
+			o.k, o.i64 = kDecArr, make([]int64, l%40)
+			for i := range o.i64 {
+				o.i64[i] = drawDecimal(r)
+			}
+		} else {
+			o.k, o.i32 = kDecArrInt, make([]int32, l%40)
+			for i := range o.i32 {
+				o.i32[i] = r.I32()
+			}
+		}
+		return o
+	}
+	if !nilv {
+		o.b = r.Bytes(l)
+	}
+	return o
 }
